@@ -31,7 +31,7 @@ for pid in sorted(CHECKS):
         "evidence_file": f"/verif/evidence/{pid}.json",
         "replay_cmd_template": f"./check {pid} --replay {{path}}",
         "engine": "coq-models",
-        "level_claimed": {"category": c.get("category", "proof"), "text": c["text"], "design_ref": c.get("design_ref", f"DESIGN.md section 5 {pid}")},
+        "level_claimed": {"category": c.get("category", "proof"), "text": c["text"], "design_ref": c.get("design_ref", f"DESIGN.md sections 5 (plan) and 10.3 (as built) {pid}")},
         "level_note": c["note"],
         "technique": c["technique"],
     })
